@@ -6,6 +6,7 @@ computes it.  Every run has a wall-clock cap (SIGALRM inside the worker) and the
 one in the parent; a capped or dead run is a harness error, never a pass or violation.
 """
 import faulthandler
+import gc
 import json
 import os
 import select
@@ -61,6 +62,8 @@ def run_batch(indices, fn, nworkers=None, run_cap=60.0, batch_cap=3600.0):
     deadline = time.monotonic() + batch_cap
     sys.stdout.flush()
     sys.stderr.flush()
+    gc.collect()
+    gc.freeze()      # keep the parent's heap out of the children's GC passes (no copy-on-write storms)
     kids = {}
     for w in range(nworkers):
         r, wfd = os.pipe()
